@@ -271,3 +271,28 @@ def console_metrics_family(work, name, insess, cmds, maxcalls, maxatt, kinds, au
             "consumed": consumed, "accepted": accepted, "viols": viols, "traces": traces,
             "times": {"gen": round(t1 - t0, 1), "replay": round(t2 - t1, 1), "validate": round(t3 - t2, 1)},
             "subst": dict(subst, metrics=True)}
+
+
+def vector_family(work, name, module, cfg_tpl, family, tier, seed, extra_subst=None):
+    """TLC-generated vectors -> harness `vectors` -> TraceVec validation."""
+    subst = dict(SEED=seed, FAMILY=family, TIER=tier)
+    if extra_subst:
+        subst.update(extra_subst)
+    t0 = time.time()
+    vecs, n, gst = generate(module, cfg_tpl, subst, work, name, heap="8g")
+    t1 = time.time()
+    out = os.path.join(work, name + ".res")
+    p = vlib.harness(["vectors", "-in", vecs, "-out", out, "-workers", "16"])
+    if p.returncode != 0:
+        raise vlib.Inconclusive("vector runner failed: %s %s" % (p.stdout[-500:], p.stderr[-3000:]))
+    files = sorted(glob.glob(out + ".*"), key=lambda s: int(s.rsplit(".", 1)[1]))
+    t2 = time.time()
+    tracecfg = os.path.join(work, name + ".tracecfg.json")
+    json.dump({"known": known_pairs()}, open(tracecfg, "w"))
+    res = validate("TraceVec", "Trace_Console.cfg", files, tracecfg, work)
+    accepted, consumed, events, viols = summarise(res)
+    t3 = time.time()
+    return {"name": name, "scripts": n, "scripts_file": vecs, "gen_states": gst["distinct"], "events": events,
+            "consumed": consumed, "accepted": accepted, "viols": viols, "traces": files,
+            "times": {"gen": round(t1 - t0, 1), "replay": round(t2 - t1, 1), "validate": round(t3 - t2, 1)},
+            "subst": subst}
